@@ -823,6 +823,39 @@ package regexp2
 //@     invariant strIdx == RuneStart(s, runeIndex) && $pos == RuneStart(s, runeIndex + 1)
 //@     decreases runeIndex - i
 
+// C08/C07: the sparse rune-index -> byte-index mapper of FindAllStringIndex. nil stands for the identity (pure ASCII);
+// otherwise entry i says "from rune index runeIndexes[i] on, the byte offset is the rune index plus deltas[i]", the
+// entries are in ascending order and cover every rune index of the string.
+//@ func newStringByteMapper(s string) (mp *stringByteMapper)
+//@   props C08 C07
+//@   ensures[nil]     mp == nil ==> forall k int :: 0 <= k && k <= RuneCount(s) ==> RuneStart(s, k) == k
+//@   ensures[shape]   mp != nil ==> len(mp.runeIndexes) == len(mp.deltas) && len(mp.deltas) > 0
+//@   ensures[entries] mp != nil ==> forall i int {mp.deltas[i]} :: 0 <= i && i < len(mp.deltas) ==> 1 <= mp.runeIndexes[i] && mp.runeIndexes[i] <= RuneCount(s) && mp.deltas[i] == RuneStart(s, mp.runeIndexes[i]) - mp.runeIndexes[i]
+//@   ensures[sorted]  mp != nil ==> forall i int {mp.runeIndexes[i]} :: 0 <= i && i + 1 < len(mp.runeIndexes) ==> mp.runeIndexes[i] < mp.runeIndexes[i+1]
+//@   ensures[before]  mp != nil ==> forall k int :: 0 <= k && k < mp.runeIndexes[0] ==> RuneStart(s, k) == k
+//@   ensures[between] mp != nil ==> forall i int, k int {mp.deltas[i], RuneStart(s, k)} :: 0 <= i && i < len(mp.deltas) && mp.runeIndexes[i] <= k && k <= RuneCount(s) && (i + 1 < len(mp.deltas) ==> k < mp.runeIndexes[i+1]) ==> RuneStart(s, k) == k + mp.deltas[i]
+//@   loop 0:
+//@     invariant 0 <= runeIndex && runeIndex <= RuneCount(s) && $pos == RuneStart(s, runeIndex) && delta == $pos - runeIndex
+//@     invariant mapper == nil ==> delta == 0 && forall k int :: 0 <= k && k <= runeIndex ==> RuneStart(s, k) == k
+//@     invariant mapper != nil ==> fresh(mapper) && len(mapper.runeIndexes) == len(mapper.deltas) && len(mapper.deltas) > 0 && off(mapper.runeIndexes) == 0 && off(mapper.deltas) == 0 && ref(mapper.runeIndexes) != ref(mapper.deltas)
+//@     invariant mapper != nil ==> mapper.runeIndexes[len(mapper.deltas)-1] <= runeIndex && mapper.deltas[len(mapper.deltas)-1] == delta
+//@     invariant mapper != nil ==> fresh(mapper.runeIndexes) && fresh(mapper.deltas)
+//@     invariant mapper != nil ==> forall i int {mapper.runeIndexes[i]} :: 0 <= i && i < len(mapper.deltas) ==> mapper.runeIndexes[i] <= runeIndex
+//@     invariant mapper != nil ==> forall i int {mapper.deltas[i]} {mapper.runeIndexes[i]} :: 0 <= i && i < len(mapper.deltas) ==> 1 <= mapper.runeIndexes[i] && mapper.runeIndexes[i] <= RuneCount(s) && mapper.deltas[i] == RuneStart(s, mapper.runeIndexes[i]) - mapper.runeIndexes[i]
+//@     invariant mapper != nil ==> forall i int {mapper.runeIndexes[i]} :: 0 <= i && i + 1 < len(mapper.runeIndexes) ==> mapper.runeIndexes[i] < mapper.runeIndexes[i+1]
+//@     invariant mapper != nil ==> forall k int :: 0 <= k && k < mapper.runeIndexes[0] ==> RuneStart(s, k) == k
+//@     invariant mapper != nil ==> forall i int, k int {mapper.deltas[i], RuneStart(s, k)} :: 0 <= i && i < len(mapper.deltas) && mapper.runeIndexes[i] <= k && k <= runeIndex && (i + 1 < len(mapper.deltas) ==> k < mapper.runeIndexes[i+1]) ==> RuneStart(s, k) == k + mapper.deltas[i]
+//@     decreases len(s) - $pos
+
+// byteIndex looks the entry up with sort.Search; what the search returns for this closure over the ascending
+// runeIndexes is a stated assumption (callensure), the rest - index safety and the arithmetic - is proved.
+//@ func (m *stringByteMapper) byteIndex(runeIndex int) (b int)
+//@   props C08 C10
+//@   requires m != nil && len(m.runeIndexes) == len(m.deltas)
+//@   callensure Search: forall j int {m.runeIndexes[j]} :: 0 <= j && j < len(m.runeIndexes) ==> ((j < found) == (m.runeIndexes[j] <= runeIndex))
+//@   ensures[identity] (forall j int {m.runeIndexes[j]} :: 0 <= j && j < len(m.runeIndexes) ==> m.runeIndexes[j] > runeIndex) ==> b == runeIndex
+//@   ensures[entry]    forall j int {m.deltas[j]} :: 0 <= j && j < len(m.deltas) && m.runeIndexes[j] <= runeIndex && (j + 1 < len(m.deltas) ==> runeIndex < m.runeIndexes[j+1]) ==> b == runeIndex + m.deltas[j]
+
 // ---------------------------------------------------------------------------------------------
 // C02: string entry points (regexp.go, stringprefixfilter.go)
 // ---------------------------------------------------------------------------------------------
